@@ -62,9 +62,27 @@ func RunLexer(t *testing.T, r *sim.R) {
 		s, err := c.String("s", -1, opts...)
 		return fmt.Sprintf("%q %s", s, errStr(err))
 	}
-	// reference outcome: hooks inert
+	// reference outcome: hooks inert. It runs in a bubble of its own and the bubble is left only
+	// when every goroutine of the call has ended or is blocked for good: a lexer goroutine the
+	// call leaks (judged by the scheduled pass below) must not still be on its way when the
+	// scheduler's hooks are installed - it would reach them from outside their bubble, and
+	// whether it does would depend on the machine's load, not on the tape.
 	var ref string
-	r.MustComplete("NewFrom", func() { ref = outcome() })
+	func() {
+		defer func() { recover() }() // ("blocked goroutines remain": the leak of the reference call)
+		synctest.Test(t, func(t *testing.T) {
+			defer func() {
+				if rec := recover(); rec != nil {
+					ref = fmt.Sprintf("panic: %v", rec)
+				}
+			}()
+			ref = outcome()
+			synctest.Wait()
+		})
+	}()
+	if strings.HasPrefix(ref, "panic: ") {
+		r.FailD("op-completes", "NewFrom", map[string]string{"kind": "panic", "panic": ref, "string": str}, "NewFrom / String panicked: %s", ref)
+	}
 	r.Tracef("reference outcome (free schedule): %s", ref)
 	r.StateOps += 2
 
